@@ -31,10 +31,16 @@ def build_farm(root):
     return farm, n
 
 
-def probe(modules, casefile, cwd):
+def probe(modules, casefile, cwd, ascii_locale=False):
     e = env.child_env(registry=False)
     e["PYTHONPATH"] = os.pathsep.join([modules, env.VERIF])
     e["PYTHONDONTWRITEBYTECODE"] = "1"
+    if ascii_locale:
+        # the C locale without Python's UTF-8 rescue: text files are read as ASCII (what a minimal service environment or
+        # an older interpreter gives); the shipped tables are ASCII, so nothing may change
+        for k in [k for k in e if k.startswith("LC_")] + ["LANG", "LANGUAGE", "PYTHONIOENCODING"]:
+            e.pop(k, None)
+        e.update({"LC_ALL": "C", "PYTHONUTF8": "0", "PYTHONCOERCECLOCALE": "0"})
     p = subprocess.run([env.PY, os.path.join(env.VERIF, "vf", "layout_probe.py"), casefile, cwd], env=e, cwd=cwd,
                        stdout=subprocess.PIPE, stderr=subprocess.PIPE, timeout=600)
     if p.returncode != 0:
@@ -53,6 +59,17 @@ def compare(ctx, prop, cases, what):
     os.makedirs(cwd, exist_ok=True)
     plain = probe(env.MODULES, casefile, cwd)
     linked = probe(farm, casefile, cwd)
+    asc = probe(env.MODULES, casefile, cwd, ascii_locale=True)
+    if asc.get("text_encoding", "").lower().replace("-", "").replace("_", "") not in ("ascii", "ansix3.41968", "646", "usascii"):
+        ctx.note("ASCII-locale probe ran with text encoding %r" % asc.get("text_encoding"))
+    else:
+        ctx.count("layout.ascii_locale_probes")
+    for (s, v, d), a, b in zip(cases, plain["results"], asc["results"]):
+        ctx.count("layout.compared_ascii_locale")
+        if a != b:
+            ctx.violation("%s/ascii-locale" % prop,
+                          "%s (sub-type %d, version %d, %d bytes) decodes differently in the C locale (text files read as ASCII): "
+                          "default %s ... C locale %s" % (what, s, v, len(d), json.dumps(a)[:300], json.dumps(b)[:300]), data=d[:600])
     if not os.path.realpath(plain["plugin_file"]).startswith(os.path.realpath(env.MODULES)) or \
             not linked["plugin_file"].startswith(farm):
         raise RuntimeError("layout probe imported the wrong tree: %s / %s" % (plain["plugin_file"], linked["plugin_file"]))
